@@ -102,6 +102,18 @@ def run(ctx):
         if o[0] == "ok":
             prop_bad.append({"batch": f"crc-forced-{i}", "what": "truncated batch accepted (the CRC of the truncated body was "
                              "forced to match): a header value was silently shortened", "bytes": data[:-4].hex()})
+    # what is read must not depend on the process's local time zone
+    from .. import tzprobe
+    seen, tz_ops = set(), []
+    for (label, what), (data, o) in zip(meta, rcases):
+        if o[0] == "ok" and label not in seen and len(data) < 3000:
+            seen.add(label)
+            tz_ops.append(["rbatch", data.hex()])
+        if len(tz_ops) >= (12 if quick else 60):
+            break
+    tz_diff = tzprobe.differing(tz_ops, zones=tzprobe.ZONES[:3])
+    for dd in tz_diff[:3]:
+        prop_bad.append({"batch": "time zone probe", "what": "the batch read depends on the process's local time zone (TZ)", **dd})
     res, err = _records.run_coq(ctx, "C18", rcases=rcases)
     viol, known = [], []
     failing = [] if res is None else res.get("r", [])
@@ -128,6 +140,7 @@ def run(ctx):
         kk = k.split("@")[0]
         kinds[kk] = kinds.get(kk, 0) + 1
     cov = {
+        "time_zone_probe": {"operations": len(tz_ops), "differences": len(tz_diff)},
         "evaluations": len(rcases), "distinct_nontrivial": len({c[0] for c in rcases}),
         "traces_validated_against_impl": len(rcases) - len(failing),
         "rule": "reference-encoded batches (independent encoder) + the four real-broker fixtures x (identity with trailing "
